@@ -693,6 +693,14 @@ fn pools(kit: &Kit, rng: &mut Rng, opts: &ZooOpts, b: &mut Builder, interop: Opt
         let l = rng.usize_below(nl); let size = rng.range(2, opts.max_size as u64) as usize; let ntt = rng.bool();
         if let Some(c) = b.t("synthetic", || synthetic_ct(kit, rng, l, size, ntt)) { cts.push((format!("synthetic{}:size{}:L{}", i, size, l), c)); }
     }
+    // ciphertexts of special structure (random data never has it): x - x (every word zero) and, in BFV/BGV, (x - x) + plain
+    // (c1 all zero, c0 noise-free); zero runs and zero tails are what run-length or significant-length shortcuts key on
+    if let Some(fa) = fresh_a.clone() {
+        if let Some(z) = b.t("sub", || kit.eval.sub_new(&fa, &fa)) {
+            if scheme != SchemeType::CKKS { if let Some((p0, _)) = io.plain.as_ref() { if let Some(tr) = b.t("add_plain", || kit.eval.add_plain_new(&z, p0)) { cts.push(("transparent:(x-x)+plain".into(), tr)); } } }
+            cts.push(("zero:x-x".into(), z));
+        }
+    }
     if let Some(dst) = interop { *dst = io; }
     (plains, cts)
 }
